@@ -235,5 +235,33 @@ def check(run, model, tier):
                                         'calls than the tuple ring holds, the record has datetime None, strftime raises TypeError out of next_rtc - with live trace on the chart stops '
                                         'mid-circuit (an active object\'s thread dies), with it off it does not'), node=c_, obligation=True)
     run.floor('after-step live-trace formatting sites', n_fmt, 1)
+    # ---- handing a live line to the writer thread never blocks the chart's thread: the writer's queue is unbounded (or the put is non-blocking)
+    run.rule('WRAP.no-block', 'the queue through which an active object hands live spy/trace lines to the writer thread is unbounded: the hand-over cannot block the chart')
+    wc = model.cls('InstrumenationWriterClass', required=False) if 'required' in model.cls.__code__.co_varnames else model.cls('InstrumenationWriterClass')
+    n_q = 0
+    if wc is not None:
+        qattrs = {}
+        for f_ in wc.methods.values():
+            for st_ in walk_shallow(f_.node):
+                if isinstance(st_, ast.Assign) and isinstance(st_.value, ast.Call) and norm(st_.value.func).split('.')[-1] in ('Queue', 'LifoQueue', 'PriorityQueue', 'SimpleQueue'):
+                    for t_ in st_.targets:
+                        d_ = dotted(t_)
+                        if d_ and d_.startswith(f_.params[0] + '.'):
+                            qattrs[d_.split('.', 1)[1]] = (f_, st_.value)
+        for f_ in wc.methods.values():
+            for c_ in shallow_calls(f_.node):
+                if isinstance(c_.func, ast.Attribute) and c_.func.attr == 'put' and dotted(c_.func.value) and dotted(c_.func.value).split('.', 1)[-1] in qattrs \
+                        and f_.name not in ('stop',):
+                    n_q += 1
+                    qf, qc = qattrs[dotted(c_.func.value).split('.', 1)[-1]]
+                    size = next((kw.value for kw in qc.keywords if kw.arg == 'maxsize'), qc.args[0] if qc.args else None)
+                    bounded = size is not None and not (isinstance(size, ast.Constant) and (size.value is None or (isinstance(size.value, int) and size.value <= 0)))
+                    nonblock = any(kw.arg == 'block' and isinstance(kw.value, ast.Constant) and kw.value.value is False for kw in c_.keywords)
+                    ok = (not bounded) or nonblock
+                    run.inst('WRAP.no-block', f_, 'hand-over %s into a queue created as %s' % (norm(c_.func), norm(qc)), ok,
+                             '' if ok else ('%s puts every live spy/trace line into a bounded queue (%s) with a blocking put, on the chart\'s own thread: when the live-output consumer is '
+                                            'slow, held up or dead, the instrumented chart stalls inside next_rtc after %s lines, while the same chart without live output (or without the '
+                                            'spy decorator) runs on' % (f_.qualname, norm(qc), norm(size))), node=c_, obligation=True)
+    run.floor('live-output hand-over sites', n_q, 1)
     run.assume('H4: state handlers cannot reach the processor\'s or the wrappers\' locals')
     run.assume('wrappers registered by users (live callbacks) are outside the quantifier')
